@@ -40,11 +40,12 @@ SPACES = [" ", "\t", "\xa0", "\u2003", "\u3000", "\x1f"]
 # Known C02 defects (DESIGN section 10, rows 4-7): re-observed on every run.
 KNOWN_WITNESSES = [
     # still present (known findings): re-observed so that KNOWN-FINDING is printed only while they are there
-    ("{{ 1e400 }}", {}), ("{% assign x = 1e400 %}{{ x }}", {}),
     ("{{ [1] }}", {}), ("{{ [a.b] }}", {"a": {"b": 1}}),
-    ("{{ a | compact: 'title' }}", {"a": {}}),
     ("{{ x | date: '%Y' }}", {"x": "9" * 40}), ("{{ '-10152098955' | date: '%m/%d/%Y' }}", {}),
-    # repaired by proposed_fixes/C02 and C17: must stay repaired
+    # repaired (proposed_fixes/C02, C17, C19, C20): must stay repaired
+    ("{{ 1e400 }}", {}), ("{% assign x = 1e400 %}{{ x }}", {}), ("{{ a | compact: 'title' }}", {"a": {}}),
+    ("{{ s | truncate: x }}", {"s": "abc", "x": float("inf")}), ("{{ s | slice: x }}", {"s": "abc", "x": float("inf")}),
+    ("{% translate count: a %}a{% plural %}b{% endtranslate %}", {"a": {}}),
     ("{{ 'inf' | ceil }}", {}), ("{{ 'nan' | ceil }}", {}), ("{{ 'inf' | floor }}", {}),
     ("{{ 'inf' | round }}", {}), ("{{ x | modulo: 0.0 }}", {"x": 5}), ("{{ 'inf' | minus: 'inf' }}", {}),
     ("{{ '50%' | t }}", {}), ("{{ '%(x)d' | t: x: 1 }}", {}),
@@ -263,23 +264,23 @@ def run_oracles(chk: C.Check, r: Any, stats: dict[str, int]) -> None:
     cts = json.loads(cts_path.read_text())["tests"] if cts_path.exists() else []
     vals = confused_values()
     r.shuffle(cts)
-    nbase = len(cts) if thorough else 130
+    nbase = len(cts) if thorough else 400
     for t in cts[:nbase]:
         src = t["template"]
         env = env_pair(t.get("templates") or {})
         base_data = t.get("data") or {}
         muts = [src]
         n = len(src)
-        cut = range(n) if thorough and n <= 120 else sorted(r.sample(range(n), min(n, 10 if thorough else 4)))
+        cut = range(n) if thorough and n <= 120 else sorted(r.sample(range(n), min(n, 10 if thorough else 5)))
         muts += [src[:k] for k in cut]
-        muts += [src[:i] + ins + src[j:] for (i, j, ins) in G.edits(r, src, 8 if thorough else 3)]
+        muts += [src[:i] + ins + src[j:] for (i, j, ins) in G.edits(r, src, 8 if thorough else 5)]
         for m in muts:
             data = confuse(r, m, base_data, vals)
             run_one(chk, env, m, data, stats,
                     {"source": m, "data": repr(data)[:600], "templates": t.get("templates") or {},
                      "how": "Environment.from_string(source).render(**data) and render_async"})
     # the original suite data too (unconfused), every template
-    for t in cts if thorough else cts[:300]:
+    for t in cts:
         run_one(chk, env_pair(t.get("templates") or {}), t["template"], t.get("data") or {}, stats,
                 {"source": t["template"], "data": repr(t.get("data"))[:600]})
 
